@@ -113,6 +113,29 @@ func factsVars(repo string, o *out) {
 	}
 	o.def("VarLayers", "list string", coqStrList(layers))
 	o.def("VarLayersTaskDir", "list string", coqStrList(taskDir))
+
+	// the closure built by getRangeFunc gets ast.Var by value, but Var.Sh is a *string shared with the
+	// definition: an assignment through a pointer (*x = ...) inside getVariables rewrites the Taskfile
+	writesThroughPtr := true // fail closed
+	if fd := root.funcDecl("Compiler", "getVariables"); fd != nil && fd.Body != nil {
+		writesThroughPtr = false
+		ast.Inspect(fd.Body, func(nd ast.Node) bool {
+			if as, ok := nd.(*ast.AssignStmt); ok {
+				for _, l := range as.Lhs {
+					if _, ok := l.(*ast.StarExpr); ok {
+						writesThroughPtr = true
+					}
+				}
+			}
+			if id, ok := nd.(*ast.IncDecStmt); ok {
+				if _, ok := id.X.(*ast.StarExpr); ok {
+					writesThroughPtr = true
+				}
+			}
+			return true
+		})
+	}
+	o.def("GetVariablesWritesThroughPointer", "bool", varsBoolStr(writesThroughPtr))
 	o.def("TaskDirTemplatedAfter", "string", varsCoqStr(dirAfter))
 
 	// ---- HandleDynamicVar: cache key ----
@@ -182,6 +205,36 @@ func factsVars(repo string, o *out) {
 		}
 	}
 	o.def("DeferEntrySharedWithDefinition", "bool", varsBoolStr(deferShared))
+
+	// ---- compiledTask: the loop that resolves sh: entries of the task's env must not consult the process
+	// environment (env.GetFromVars applies the OS-wins rule, and only when the experiment is off) ----
+	envLoopLooksAtOs := true // fail closed
+	if fd := root.funcDecl("Executor", "compiledTask"); fd != nil && fd.Body != nil {
+		loops := 0
+		ast.Inspect(fd.Body, func(nd ast.Node) bool {
+			rs, ok := nd.(*ast.RangeStmt)
+			if !ok || exprStr(rs.X) != "new.Env.All()" {
+				return true
+			}
+			loops++
+			looks := false
+			ast.Inspect(rs.Body, func(n2 ast.Node) bool {
+				if ce, ok := n2.(*ast.CallExpr); ok {
+					f := exprStr(ce.Fun)
+					if strings.HasPrefix(f, "os.") || strings.HasPrefix(f, "experiments.") {
+						looks = true
+					}
+				}
+				return true
+			})
+			envLoopLooksAtOs = looks
+			return false
+		})
+		if loops != 1 {
+			envLoopLooksAtOs = true
+		}
+	}
+	o.def("EnvShLoopConsultsProcessEnv", "bool", varsBoolStr(envLoopLooksAtOs))
 	o.def("TaskDotenvFirstWins", "bool", varsBoolStr(taskDotFirst))
 
 	// ---- taskfile.Dotenv / readDotEnvFiles guards ----
@@ -326,6 +379,33 @@ func factsVars(repo string, o *out) {
 		})
 	}
 	o.def("IncludeVarsTemplatedAtRead", "bool", varsBoolStr(eager))
+
+	// ---- reader.include: which of (OS environment, the including file's vars) is merged ON TOP in the
+	// variable set the include statement's fields are templated with ----
+	inclBase, inclTop := "?missing", "?missing"
+	if fd := tfp.funcDecl("Reader", "include"); fd != nil && fd.Body != nil {
+		nbase, ntop := 0, 0
+		ast.Inspect(fd.Body, func(nd ast.Node) bool {
+			switch t := nd.(type) {
+			case *ast.AssignStmt:
+				if len(t.Lhs) == 1 && len(t.Rhs) == 1 && exprStr(t.Lhs[0]) == "vars" {
+					inclBase = exprStr(t.Rhs[0])
+					nbase++
+				}
+			case *ast.CallExpr:
+				if exprStr(t.Fun) == "vars.Merge" && len(t.Args) >= 1 {
+					inclTop = exprStr(t.Args[0])
+					ntop++
+				}
+			}
+			return true
+		})
+		if nbase != 1 || ntop != 1 {
+			inclBase, inclTop = "?ambiguous", "?ambiguous"
+		}
+	}
+	o.def("IncludeTemplateVarsBase", "string", varsCoqStr(inclBase))
+	o.def("IncludeTemplateVarsTop", "string", varsCoqStr(inclTop))
 
 	// ---- resolveMatrixRefs: assignment into a row of the matrix it was given ----
 	writes := true // fail closed: unknown shape counts as "writes"
